@@ -140,7 +140,7 @@ def search(rep: C.Report, tier: str, broken):
                     rep.case(key=(name, "transition", k))
                     rep.count("transition scan points")
                     info = {"eos": name, "vw": vw, "vp": vp, "vm": vm, "Tp": Tp, "Tm": Tm, "cs_minus": cs, "transition_at": vstar}
-                    if vm > vw * (1 + 1e-12) or vm > cs * (1 + 1e-9) or abs(vm - min(vw, cs)) > 1e-9:
+                    if not vm <= vw * (1 + 1e-12) or not vm <= cs * (1 + 1e-09) or (not abs(vm - min(vw, cs)) <= 1e-09):
                         rep.violation("at the deflagration/hybrid transition the returned v- is not min(vw, cs-(T-))", info,
                                       finding_key="C06:transition")
         except Exception as ex:  # noqa: BLE001
@@ -150,7 +150,7 @@ def search(rep: C.Report, tier: str, broken):
             vpj, vmj, Tpj, Tmj = h.matchDeton(h.vJ * (1 + 1e-7) + 1e-9)
             csj = math.sqrt(float(th.csqLowT(Tmj)))
             rep.case(key=(name, "CJ"))
-            if abs(vmj - csj) > 5e-3:
+            if not abs(vmj - csj) <= 0.005:
                 rep.violation("Jouguet velocity is not the Chapman-Jouguet point (v- != cs- just above vJ)",
                               {"eos": name, "vJ": h.vJ, "vm": float(vmj), "cs_minus": csj, "Tm": float(Tmj)}, finding_key="C06:CJ")
         except Exception as ex:  # noqa: BLE001
@@ -184,7 +184,7 @@ def search(rep: C.Report, tier: str, broken):
                 rep.violation("no detonation exists at the advertised Jouguet velocity of a strongly supercooled transition with a short "
                               "low-T range", dict(info, error=f"{type(ex).__name__}: {ex}"[:200]), finding_key="C06:CJ-strong")
                 continue
-            if abs(h2.vJ - hw.vJ) > 1e-6 or abs(vmj - csj) > 5e-3:
+            if not abs(h2.vJ - hw.vJ) <= 1e-06 or not abs(vmj - csj) <= 0.005:
                 rep.violation("Jouguet velocity depends on where the tabulated low-T range ends (not the Chapman-Jouguet point)",
                               dict(info, vJ=h2.vJ, vm=float(vmj), cs_minus=csj), finding_key="C06:CJ-strong")
     # a scan over equations of state at ONE nucleation temperature on ONE velocity grid, a fresh Hydrodynamics object per EOS: every matching
@@ -252,7 +252,7 @@ def search(rep: C.Report, tier: str, broken):
         info = {"TMaxHighT": hiH, "TMaxLowT": hiL, "fastestDeflag": vmax, "vJ": h.vJ}
         for vw in np.linspace(h.vMin + 0.02, vmax - 1e-4, 7):
             _, _, Tp, Tm = h.findMatching(float(vw))
-            if (hiH and Tp > hiH * (1 + 1e-6)) or (hiL and Tm > hiL * (1 + 1e-6)):
+            if hiH and (not Tp <= hiH * (1 + 1e-06)) or (hiL and (not Tm <= hiL * (1 + 1e-06))):
                 rep.violation("a wall slower than the advertised fastest deflagration has a temperature outside the tabulated range",
                               dict(info, vw=float(vw), Tp=float(Tp), Tm=float(Tm)), finding_key="C06:fastestDeflag")
         if vmax < h.vJ - 1e-6:
@@ -268,6 +268,6 @@ def search(rep: C.Report, tier: str, broken):
             if vmin < 1:
                 for vw in np.linspace(min(vmin, 0.999), 0.999, 5):
                     _, _, Tp, Tm = h.findMatching(float(vw))
-                    if Tm > hiL * (1 + 1e-6):
+                    if not Tm <= hiL * (1 + 1e-06):
                         rep.violation("a detonation faster than the advertised slowest one has T- outside the tabulated range",
                                       dict(info2, vw=float(vw), Tm=float(Tm)), finding_key="C06:slowestDeton")
